@@ -977,6 +977,26 @@ def matrices(rng):
     return m
 
 
+def proj_oracle(m, xyz, truth, info):
+    """exact homogeneous projection (M @ (x, y, z, 1), then x/w, y/w with the sign of w kept, as the code divides) and the exact 2-d verdict.
+    Returns (eps, verdicts, screen points); a point with w == 0 gets verdict 2 (not compared)"""
+    scr = []
+    big = F(0)
+    for x, y, z in xyz:
+        X, Y, Z_ = F(float(x)), F(float(y)), F(float(z))
+        h = [r[0] * X + r[1] * Y + r[2] * Z_ + r[3] for r in m]
+        if h[3] == 0:
+            scr.append(None)
+            continue
+        p = (h[0] / h[3], h[1] / h[3])
+        big = max(big, abs(p[0]), abs(p[1]))
+        scr.append(p)
+    ident = all(m[a][b] == (1 if a == b else 0) for a in range(4) for b in range(4))
+    eps = F(0) if (info.exact and ident) else max(truth.scale(), big) * EPS_SCALE
+    verd = [2 if p is None else truth.verdict(p, eps) for p in scr]
+    return eps, verd, [(F(0), F(0)) if p is None else p for p in scr]
+
+
 def stream_projected(R):
     from glue.core import roi as R_
     import glue.core.roi as roi_mod
@@ -1011,18 +1031,7 @@ def stream_projected(R):
             continue
         if impl.shape != tuple(shp) or not np.array_equal(impl.ravel().astype(bool), one):
             R.fail('oracle', dict(case, points=xyz.tolist()), {'why': 'contains3d depends on chunking / shape', 'chunk': chunk, 'shape': shp})
-        # oracle: exact projection then exact 2-d verdict
-        orc = []
-        big = F(0)
-        for x, y, z in xyz:
-            X, Y, Z_ = F(float(x)), F(float(y)), F(float(z))
-            h = [r[0] * X + r[1] * Y + r[2] * Z_ + r[3] for r in m]
-            p = (h[0] / h[3], h[1] / h[3])
-            big = max(big, abs(p[0]), abs(p[1]))
-            orc.append(p)
-        ident = all(m[a][b] == (1 if a == b else 0) for a in range(4) for b in range(4))
-        eps = F(0) if (info.exact and ident) else max(truth.scale(), big) * EPS_SCALE
-        overd = [truth.verdict(p, eps) for p in orc]
+        eps, overd, orc = proj_oracle(m, xyz, truth, info)
         bad = [j for j, (v, b) in enumerate(zip(overd, one)) if v != 2 and bool(b) != (v == 1)]
         if bad:
             j = bad[0]
@@ -1068,6 +1077,128 @@ def stream_projected(R):
     R.stream('projected', cases=len(items), big_cases=nbig, exhaustive=False,
              bound='identity / affine / perspective dyadic matrices, 60 points, shapes (60,),(6,10),(3,4,5),(60,1); chunk limit lowered to 1, 7, 16 through '
                    'glue.core.roi.iterate_chunks in addition to the real 10^6; thorough tier: 1100 x 1000 broadcast grid through the real chunking')
+
+
+def mat_mul(A, B):
+    return [[sum(A[i][k] * B[k][j] for k in range(4)) for j in range(4)] for i in range(4)]
+
+
+def mat_eye():
+    return [[F(1 if i == j else 0) for j in range(4)] for i in range(4)]
+
+
+def structured_matrices():
+    """(name, matrix) pairs: perspective rows (0,0,p,1) and (px,py,pz,1), with / without a translation column, scaled, composed
+    with rotations (Pythagorean, so every entry is rational) on either side, next to the affine building blocks themselves.
+    The code uses M @ (x, y, z, 1): perspective terms are the last ROW, the translation is the last COLUMN."""
+    def persp(row):
+        m = mat_eye()
+        m[3] = [F(v) for v in row] + [F(1)]
+        return m
+
+    def trans(t):
+        m = mat_eye()
+        for i in range(3):
+            m[i][3] = F(t[i])
+        return m
+
+    def rotz(c, s_):
+        m = mat_eye()
+        m[0][0], m[0][1], m[1][0], m[1][1] = c, -s_, s_, c
+        return m
+
+    def rotx(c, s_):
+        m = mat_eye()
+        m[1][1], m[1][2], m[2][1], m[2][2] = c, -s_, s_, c
+        return m
+
+    def scaled(k, m):
+        return [[F(k) * v for v in row] for row in m]
+    rows = [('p(0,0,1/2)', (0, 0, F(1, 2))), ('p(0,0,-1/4)', (0, 0, F(-1, 4))), ('p(0,0,1/8)', (0, 0, F(1, 8))),
+            ('p(1/8,-1/16,1/4)', (F(1, 8), F(-1, 16), F(1, 4))), ('p(-1/4,1/8,0)', (F(-1, 4), F(1, 8), 0))]
+    T = trans((1, F(-1, 2), 2))
+    Rz = rotz(F(3, 5), F(4, 5))
+    Rx = rotx(F(5, 13), F(12, 13))
+    perm = [[F(0), F(1), F(0), F(0)], [F(0), F(0), F(1), F(0)], [F(1), F(0), F(0), F(0)], [F(0), F(0), F(0), F(1)]]
+    out = [('identity', mat_eye()), ('translation', T), ('rot_z', Rz), ('rot_x', Rx), ('permutation', perm), ('2*identity', scaled(2, mat_eye())),
+           ('rot_z*translation', mat_mul(Rz, T))]
+    for name, row in rows:
+        P = persp(row)
+        out += [(name, P), (name + '*T', mat_mul(P, T)), ('T*' + name, mat_mul(T, P)), ('2*' + name, scaled(2, P)), ('-1/2*' + name, scaled(F(-1, 2), P)),
+                (name + '*rot_z', mat_mul(P, Rz)), ('rot_z*' + name, mat_mul(Rz, P)), (name + '*rot_x', mat_mul(P, Rx)),
+                ('rot_x*' + name + '*T', mat_mul(mat_mul(Rx, P), T))]
+    # the implementation receives floats: the matrix of the case is what those floats are, exactly
+    return [(name, [[F(float(v)) for v in row] for row in m]) for name, m in out]
+
+
+STRUCT_REGIONS = [
+    ('rect', F(-1), F(2), F(-1), F(1), None),
+    ('rect', F(-1), F(1), F(-1, 2), F(1, 2), ('pyth', 3, 4, 5)),
+    ('ell', F(0), F(0), F(2), F(1), ('pyth', 5, 12, 13)),
+    ('circ', F(0), F(0), F(3, 2)),
+    ('ann', F(0), F(0), F(1, 2), F(2)),
+    ('range', 'x', F(-1), F(1)),
+    ('range', 'y', F(-1, 2), F(3, 2)),
+    ('poly', ((F(-1), F(-1)), (F(2), F(-1)), (F(2), F(0)), (F(0), F(0)), (F(0), F(2)), (F(-1), F(2)))),
+    ('poly', ((F(-1), F(-1)), (F(1), F(-4, 5)), (F(1, 5), F(11, 10)), (F(-1), F(-1))), 'numpy'),
+]
+
+
+def stream_projected_structured(R):
+    """Projected3dROI over a structured family of projection matrices x every 2-d region class it can wrap"""
+    from glue.core import roi as R_
+    mats = structured_matrices()
+    lines, items = [], []
+    for im, (name, m) in enumerate(mats):
+        for ir, spec in enumerate(STRUCT_REGIONS):
+            rng = R.subrng('projs', im, ir)
+            if spec[0] == 'poly':
+                spec = ('poly', tuple((F(float(a)), F(float(b))) for a, b in spec[1])) + tuple(spec[2:])
+            case = {'stream': 'projected_structured', 'roi': jspec(spec), 'ops': [], 'matrix_name': name, 'matrix': jspec(m)}
+            npts = R.pick(30, 48)
+            xyz = np.array([[float(dy(rng, -3, 3, 16)), float(dy(rng, -3, 3, 16)), float(dy(rng, -3, 6, 16))] for _ in range(npts)])
+            try:
+                roi, truth, info = run_impl(spec, ())
+                mf = np.array([[float(v) for v in row] for row in m])
+                proj = R_.Projected3dROI(roi_2d=roi, projection_matrix=mf)
+                one = np.asarray(proj.contains3d(xyz[:, 0], xyz[:, 1], xyz[:, 2])).astype(bool)
+                two = np.asarray(proj.contains3d(xyz[:, 0].reshape(-1, 6), xyz[:, 1].reshape(-1, 6), xyz[:, 2].reshape(-1, 6))).astype(bool)
+            except Exception as e:
+                R.fail('oracle', case, {'why': 'implementation raised %s: %s' % (type(e).__name__, e)})
+                continue
+            if not np.array_equal(two.ravel(), one):
+                R.fail('oracle', dict(case, points=xyz.tolist()), {'why': 'contains3d depends on the array shape'})
+            eps, overd, scr = proj_oracle(m, xyz, truth, info)
+            bad = [j for j, (v, b) in enumerate(zip(overd, one)) if v != 2 and bool(b) != (v == 1)]
+            if bad:
+                j = bad[0]
+                R.fail('oracle', dict(case, points=[xyz[j].tolist()]),
+                       {'why': 'contains3d differs from the exact homogeneous projection (x/w, y/w) + exact geometry', 'contains3d': bool(one[j]),
+                        'truth_inside': overd[j] == 1, 'screen': [float(scr[j][0]), float(scr[j][1])], 'n_bad': len(bad)})
+            lines.append(enc((2, [q(eps), (0, [(0, [q(v) for v in row]) for row in m]), spec_tree(spec), (0, []),
+                                  (0, [(0, [q(F(float(a))), q(F(float(b))), q(F(float(c)))]) for a, b, c in xyz])])))
+            items.append((case, one, overd, xyz))
+            ncmp = [b for v, b in zip(overd, one) if v != 2]
+            R.count(('projs', name, ir), nontrivial=bool(any(ncmp) and not all(ncmp)), stream='projected_structured', kind=spec[0],
+                    matrix=name.split('*')[0] if name.startswith('p(') else name)
+    outs = pmodel(R, lines)
+    for (case, one, overd, xyz), o in zip(items, outs):
+        if is_err(o):
+            R.fail('correspondence', case, {'why': 'model error', 'model': o})
+            continue
+        mver = [t_[0] for t_ in kids(o)]
+        bad = [j for j, (v, b) in enumerate(zip(mver, one)) if v != 2 and bool(b) != (v == 1)]
+        if bad:
+            j = bad[0]
+            R.fail('correspondence', dict(case, points=[xyz[j].tolist()]), {'why': 'model contains3d != implementation', 'model': mver[j], 'impl': bool(one[j])})
+        bad2 = [j for j, (v, w) in enumerate(zip(mver, overd)) if v != 2 and w != 2 and v != w]
+        if bad2:
+            j = bad2[0]
+            R.fail('correspondence', dict(case, points=[xyz[j].tolist()]), {'why': 'model and exact oracle disagree', 'model': mver[j], 'oracle': overd[j]})
+    R.stream('projected_structured', cases=len(items), matrices=len(mats), exhaustive=True,
+             bound='%d structured matrices (identity, translation, rotations, permutation, scaling; perspective rows (0,0,p,1) and (px,py,pz,1) alone, '
+                   'with the translation on either side, scaled by 2 and -1/2, composed with rotations on either side) x 9 regions (all 2-d classes), 30 (quick) / 48 points on a 1/16 lattice, '
+                   'w of either sign' % len(mats))
 
 
 def stream_categorical(R):
@@ -1181,6 +1312,7 @@ def run(R):
     stream_random(R)
     stream_shapes(R)
     stream_projected(R)
+    stream_projected_structured(R)
     stream_subset_state(R)
     R.sample({'roi': ['rect', -1.0, 3.0, 0.5, 2.5, ['pyth', 3, 4, 5]], 'ops': [['move', 2.5, -0.75], ['rot', ['mult', 2, 34]]], 'points': [[0.25, 1.0]]})
     R.sample({'roi': ['poly', [[0, 0], [4, 0], [4, 1], [1, 1], [1, 3], [0, 3], [0, 0]], 'numpy'], 'ops': [['move', 0.0, 0.0], ['rot', ['mult', 2, 0]]]})
@@ -1207,6 +1339,29 @@ def replay(R, case):
             if R.model_available and B.items:
                 o = R.model([B.items[0][1]])[0]
                 out['model'] = [t_[0] for t_ in kids(kids(o)[1])] if tag(o) == 0 else 'error'
+    elif 'roi' in case and 'matrix' in case and 'points' in case:
+        from glue.core import roi as R_
+        spec = unjspec(case['roi'])
+        if spec[0] == 'poly':
+            spec = ('poly', tuple(tuple(v) for v in spec[1])) + tuple(spec[2:])
+        ops = unjspec(case.get('ops', []))
+        m = [[F(float(v)) for v in row] for row in case['matrix']]
+        xyz = np.array(case['points'], dtype=float).reshape(-1, 3)
+        try:
+            roi, truth, info = run_impl(spec, ops)
+            proj = R_.Projected3dROI(roi_2d=roi, projection_matrix=np.array(case['matrix'], dtype=float))
+            one = np.asarray(proj.contains3d(xyz[:, 0], xyz[:, 1], xyz[:, 2])).astype(bool)
+        except Exception as e:
+            out.update(impl='raised %s: %s' % (type(e).__name__, e), violates=True)
+            return out
+        eps, overd, scr = proj_oracle(m, xyz, truth, info)
+        out.update(impl=one.tolist(), oracle=overd, screen=[[float(a), float(b)] for a, b in scr], eps=float(eps))
+        out['violates'] = any(v != 2 and bool(b) != (v == 1) for v, b in zip(overd, one))
+        if R.model_available:
+            line = enc((2, [q(eps), (0, [(0, [q(v) for v in row]) for row in m]), spec_tree(spec), (0, info.mops),
+                            (0, [(0, [q(F(float(a))), q(F(float(b))), q(F(float(c)))]) for a, b, c in xyz])]))
+            o = R.model([line])[0]
+            out['model'] = 'error' if is_err(o) else [t_[0] for t_ in kids(o)]
     else:
         out['note'] = 'replay by re-running the stream with the stored seed: VERIF_SEED=<seed> ./check C08 --tier <tier>'
         out['violates'] = False
